@@ -200,6 +200,12 @@ func (h *hist) send1(src int, ordered bool) {
 	if w.r.Chance(1, 20) {
 		ch = "channel-77" // unknown channel
 	}
+	h.send1With(src, ordered, e, port, ch, th, tt, data)
+}
+
+// send1With sends one v1 packet with the given fields and returns its bookkeeping entry (nil if refused).
+func (h *hist) send1With(src int, ordered bool, e *ibctesting.Endpoint, port, ch string, th clienttypes.Height, tt uint64, data []byte) *pkt1 {
+	w := h.w
 	var seq uint64
 	// commitments do not depend on the sequence: register the descriptor before the store is dumped
 	w.p1desc(channeltypes.NewPacket(data, 1, port, ch, e.Counterparty.ChannelConfig.PortID, e.Counterparty.ChannelID, th, tt))
@@ -212,11 +218,37 @@ func (h *hist) send1(src int, ordered bool) {
 	if out == "ok" {
 		p := channeltypes.NewPacket(data, seq, port, ch, e.Counterparty.ChannelConfig.PortID, e.Counterparty.ChannelID, th, tt)
 		w.p1desc(p)
-		h.p1 = append(h.p1, &pkt1{src: src, p: p, ord: ordered})
+		k := &pkt1{src: src, p: p, ord: ordered}
+		h.p1 = append(h.p1, k)
 		if seq > w.maxSeq {
 			w.maxSeq = seq
 		}
 		w.steps[len(w.steps)-1]["ret_seq"] = hx.U(seq)
+		return k
+	}
+	return nil
+}
+
+// directedOrdered: two packets on the ORDERED channel with a far timeout, relayed out of order first: the receive of
+// the second before the first and the acknowledgement of the second before the first must both be refused (C02).
+func (h *hist) directedOrdered(idx int) {
+	w := h.w
+	src := (idx / 2) % 2
+	e := w.ep(w.pO, src)
+	dstH := w.ch[1-src].App.LastBlockHeight()
+	th := clienttypes.NewHeight(clienttypes.ParseChainID(w.ch[1-src].ChainID), uint64(dstH)+100000)
+	a := h.send1With(src, true, e, e.ChannelConfig.PortID, e.ChannelID, th, 0, []byte("d-ok1"))
+	b := h.send1With(src, true, e, e.ChannelConfig.PortID, e.ChannelID, th, 0, []byte("d-ok2"))
+	if a == nil || b == nil {
+		return
+	}
+	h.recv1(b, false) // gap
+	h.recv1(a, false)
+	h.recv1(b, false)
+	if idx%2 == 0 {
+		h.ack1(b, false) // out of order
+		h.ack1(a, false)
+		h.ack1(b, false)
 	}
 }
 
@@ -792,6 +824,9 @@ func runHistory(w *W, nops int, histIndex int) {
 	for i := 0; i < nops; i++ {
 		if i == 4 {
 			h.directedV2(histIndex)
+		}
+		if i == 2 && histIndex%3 == 0 {
+			h.directedOrdered(histIndex / 3)
 		}
 		if r.Chance(1, 7) {
 			h.lhOp()
